@@ -51,7 +51,8 @@ JOBS = {"quick": 4, "thorough": 16}
 OPTIMIZED_SHARDS = {"quick": 2, "thorough": 8}  # the same cases once more under `python -O`
 LEVEL_TEXT = (
     "Every program with up to 2 spawned tasks (all script pairs x spawn sites x body outcomes) is run under every release order of its gates (DFS, capped), plus sampled programs "
-    "with 3-4 tasks, grandchildren and nested async scopes; at each block exit the done() flags of all tasks spawned into it are sampled, and a pending exit at loop quiescence is a hang."
+    "with 3-4 tasks, grandchildren and nested async scopes; at each block exit the done() flags of all tasks spawned into it are sampled, and a pending exit at loop quiescence is a hang. "
+    "Loop callbacks armed by a body that call ctx.spawn right after the block was left are refused or leave nothing running."
 )
 LEVEL_NOTE = "Trusted: lexical owner attribution of spawn sites (innermost enclosing async scope, inherited by spawned tasks), gate scheduler, VirtualLoop quiescence detection."
 
